@@ -1,7 +1,9 @@
 CONSTANTS
   Alphabet <- L2
   Core <- L2Core
+  Mid <- L2Core
   MaxAll = 2
+  MaxMid = 2
   MaxCore = 2
   Wrappers <- Wrap2
   MaxWrap = 2
